@@ -111,19 +111,27 @@ impl<T> PathSearchIndex<T> {
     ///
     /// * `needle`: one or more parts in the end of target path
     pub fn get(&self, needle: &str) -> Vec<&T> {
-        let mut split: Vec<_> = if needle.starts_with(&self.delimiter) {
+        if needle.starts_with(&self.delimiter) {
             // if path start from (for example) '/' char that mean not delimiter, but root dir,
             // we explicitly add this as index part
-            iter::once(self.delimiter.as_str())
-                .chain(needle.split(&self.delimiter).skip(1))
-                .map(|part| gcx().with_interner(|i| i.get_or_intern(part)))
-                .collect()
+            self.get_by_parts(
+                iter::once(self.delimiter.as_str()).chain(needle.split(&self.delimiter).skip(1)),
+            )
         } else {
-            needle
-                .split(&self.delimiter)
-                .map(|part| gcx().with_interner(|i| i.get_or_intern(part)))
-                .collect()
-        };
+            self.get_by_parts(needle.split(&self.delimiter))
+        }
+    }
+
+    /// Return all values which correspond to sub-path.
+    ///
+    /// # Arguments
+    ///
+    /// * `needle`: an iterator over one or more parts in the end of target path
+    pub fn get_by_parts(&self, needle: impl IntoIterator<Item = impl AsRef<str>>) -> Vec<&T> {
+        let mut split: Vec<_> = needle
+            .into_iter()
+            .map(|part| gcx().with_interner(|i| i.get_or_intern(part)))
+            .collect();
 
         let Some(expected_head) = split.pop() else {
             return vec![];
@@ -219,6 +227,22 @@ mod test {
         assert_eq!(index.get("ns3::ns2::fn3"), vec![&6]);
         assert_eq!(index.get("ns3::ns2::fn6"), vec![&7]);
         assert_eq!(index.get("ns3::ns2::fn8"), vec![&9]);
+    }
+
+    #[test]
+    pub fn test_index_by_parts() {
+        let mut index = PathSearchIndex::new("::");
+        fill_index(&mut index);
+        index.insert(["<ns1::t1 as ns2::tr1>", "fn1"], 12);
+
+        assert_eq!(index.get_by_parts(["ns2", "fn1"]), vec![&10, &11]);
+        assert_eq!(index.get_by_parts(["fn1"]), vec![&10, &11, &12]);
+        assert_eq!(
+            index.get_by_parts(["<ns1::t1 as ns2::tr1>", "fn1"]),
+            vec![&12]
+        );
+        assert_eq!(index.get_by_parts(["tr1>", "fn1"]), Vec::<&i32>::new());
+        assert_eq!(index.get_by_parts(Vec::<&str>::new()), Vec::<&i32>::new());
     }
 
     #[test]
